@@ -7,9 +7,12 @@
 -- or without auxiliary segment / Lagrange kernel, any counts.
 import Winter.Model.Transcript
 import WinterProofs.Lemmas.C04
+import WinterProofs.Lemmas.C04Run
+import WinterProofs.Lemmas.C04Ctx
 
 namespace C04
 open Model.Transcript C04L
+open Model.Coin (HashOps Coin Out isPanic runFrom)
 
 -- =================================================================== the protocol has no repeated event
 theorem protocol_nodup (cfg : Cfg) : (protocol cfg).Nodup := by
@@ -147,6 +150,73 @@ theorem prover_has_no_unused_draw (cfg : Cfg) : dropUnused cfg (proverScript cfg
   cases aux <;> cases lag <;>
     simp [dropUnused, unusedDraw, proverScript, friProver, List.filter_append, hF]
 
+-- =================================================================== (2') identical VALUES of the used challenges
+/-- ★ (2') run on the public coin of C19 (any hasher `H`, any statement, any message digests, any nonce), the
+    verifier's script produces exactly the outputs of the prover's script — every drawn element, the
+    proof-of-work count, the query positions — with ONE more output `o` (the unused α) inserted before the last
+    two (proof-of-work count and query positions): the extra draw advances the counter only, and the two calls
+    after it read the seed only. Hypothesis: the coin's 64-bit draw counter does not overflow in the verifier's
+    run (`isPanic`; it would need 2^64 consecutive draws) -/
+theorem used_challenge_values_agree {D : Type} (H : HashOps D) (env : Env D) (cfg : Cfg)
+    (hnp : ∀ o ∈ runScript H env cfg (verifierScript cfg), isPanic o = false) :
+    ∃ (pre : List Out) (o : Out) (tail : List Out),
+      runScript H env cfg (verifierScript cfg) = pre ++ o :: tail ∧
+      runScript H env cfg (proverScript cfg) = pre ++ tail ∧ tail.length = 2 := by
+  obtain ⟨rest, hhead⟩ := prefixScript_head cfg
+  have hV := verifierScript_split cfg
+  have hP := proverScript_split cfg
+  -- both runs start from the same coin
+  have hseedV : seedOf env (verifierScript cfg) = seedOf env (proverScript cfg) := by
+    rw [hV, hP, hhead]; rfl
+  -- compiled histories
+  let A := compile env cfg (prefixScript cfg)
+  let T : List (Model.Coin.Op D) := [.checkLeadingZeros env.nonce, .drawIntegers cfg.queries cfg.ldeSize env.nonce]
+  have hcV : compile env cfg (verifierScript cfg) = A ++ (Model.Coin.Op.draw env.fd cfg.ext :: T) := by
+    rw [hV, compile_append]; simp [A, T, compile, compileOp, tailScript]
+  have hcP : compile env cfg (proverScript cfg) = A ++ T := by
+    rw [hP, compile_append]; simp [A, T, compile, compileOp, tailScript]
+  let c0 := Model.Coin.new H (seedOf env (proverScript cfg))
+  have hrunV : runScript H env cfg (verifierScript cfg) = (runFrom H c0 (A ++ (Model.Coin.Op.draw env.fd cfg.ext :: T))).1 := by
+    simp only [runScript, Model.Coin.run, hseedV, hcV, c0]
+  have hrunP : runScript H env cfg (proverScript cfg) = (runFrom H c0 (A ++ T)).1 := by
+    simp only [runScript, Model.Coin.run, hcP, c0]
+  rw [hrunV] at hnp
+  have hnpA := nopanic_prefix H c0 A _ hnp
+  let cA := (runFrom H c0 A).2
+  have e1 := runFrom_append' H c0 A (Model.Coin.Op.draw env.fd cfg.ext :: T) hnpA
+  have e2 := runFrom_append' H c0 A T hnpA
+  -- the extra draw
+  have hstep : Model.Coin.step H cA (Model.Coin.Op.draw env.fd cfg.ext) = Model.Coin.draw H env.fd cfg.ext cA := rfl
+  have hop : isPanic (Model.Coin.step H cA (Model.Coin.Op.draw env.fd cfg.ext)).1 = false := by
+    apply hnp
+    rw [e1]
+    exact List.mem_append_right _ (runFrom_cons_head H cA _ T)
+  have e3 := runFrom_cons_nopanic H cA (Model.Coin.Op.draw env.fd cfg.ext) T hop
+  have hseed : (Model.Coin.step H cA (Model.Coin.Op.draw env.fd cfg.ext)).2.seed = cA.seed := by
+    rw [hstep]; exact draw_seed H env.fd cfg.ext cA
+  refine ⟨(runFrom H c0 A).1, (Model.Coin.step H cA (Model.Coin.Op.draw env.fd cfg.ext)).1, (runFrom H cA T).1, ?_, ?_,
+    tail_outputs_length H _ _ _ cA⟩
+  · rw [hrunV, e1, e3, tail_outputs H _ _ _ _ cA hseed]
+  · rw [hrunP, e2]
+
+/-- a (cryptographically worthless, but executable) hasher and data with which the hypothesis of (2') holds:
+    the verifier's run of the configuration `cfgRun` has no panic, and its outputs are the prover's plus one -/
+def trivOps : HashOps Nat :=
+  ⟨fun es => es.length + es.sum, fun a b => a + 2 * b + 1, fun s v => 3 * s + v, fun d => List.replicate 32 (d % 251)⟩
+
+def envRun : Env Nat :=
+  { seed := fun p => match p with | .context => [1, 2] | .pubInputs => [3], msg := fun _ => 7, nonce := 5,
+    fd := ⟨18446744069414584321, 8⟩ }
+
+def cfgRun : Cfg :=
+  { aux := true, lagrange := false, gkrDraws := 0, auxRands := 2, nTrans := 1, nAssert := 2, logLen := 3, width := 2,
+    cols := 1, friLayers := 2, queries := 2, ldeSize := 16, ext := 1, grinding := 0 }
+
+example : ∀ o ∈ runScript trivOps envRun cfgRun (verifierScript cfgRun), isPanic o = false := by decide +kernel
+
+example : (runScript trivOps envRun cfgRun (verifierScript cfgRun)).length
+    = (runScript trivOps envRun cfgRun (proverScript cfgRun)).length + 1 := by decide +kernel
+
 -- =================================================================== (3) provenance of the absorbed values
 /-- the messages of a configuration, in protocol order -/
 def allMsgs (cfg : Cfg) : List Msg :=
@@ -162,6 +232,13 @@ theorem absorbed_messages (cfg : Cfg) :
     simpa [absorbedMsgs_append, absorbedMsgs] using absorbedMsgs_friProverLayers L 0
   constructor <;> cases aux <;> cases lag <;>
     simp [verifierScript, proverScript, allMsgs, friCommitments, friProver, absorbedMsgs_append, absorbedMsgs, hV, hP]
+
+/-- the protocol order lists exactly these messages (so (1) speaks about every message either side absorbs) -/
+theorem protocol_messages (cfg : Cfg) : (protocol cfg).filterMap msgOf = allMsgs cfg := by
+  rcases cfg with ⟨aux, lag, _, _, _, _, _, _, _, L, _, _, _, _⟩
+  have hF := msgs_protoFri L 0
+  cases aux <;> cases lag <;>
+    simp [protocol, allMsgs, friCommitments, List.filterMap_append, List.filterMap_cons, msgOf, ← hF]
 
 theorem allMsgs_nodup (cfg : Cfg) : (allMsgs cfg).Nodup := by
   rcases cfg with ⟨aux, lag, _, _, _, _, _, _, _, L, _, _, _, _⟩
@@ -305,6 +382,79 @@ theorem remainder_is_bound {D E : Type} [DecidableEq D] (h : List E → D) (cfg 
     (hb : remainderBound h cfg p = true) :
     verifierAbsorbs h cfg p .remainderCommitment = some (h p.friRemainder) := by
   simpa [remainderBound] using hb
+
+-- =================================================================== (4) the context part of the seed
+/-- FULL STATEMENT: the elements the coin is seeded with determine the proof context (so that "the coin has
+    absorbed the context" means what it says): two valid contexts over the same field with the same
+    `Context::to_elements` are equal -/
+def CtxInjective : Prop :=
+  ∀ c c' : Ctx, c.valid → c'.valid → c.elemBytes = c'.elemBytes → ctxElems c = ctxElems c' → c = c'
+
+/-- two contexts that differ only in the trace metadata: `[5]` and `[5, 0]` -/
+def ctxA : Ctx :=
+  { mainWidth := 1, auxWidth := 0, auxRands := 0, traceLen := 8, traceMeta := [5], modulus := 18446744069414584321,
+    elemBytes := 8, queries := 1, blowup := 2, grinding := 0, ext := 1, folding := 2, remainder := 0 }
+
+def ctxB : Ctx := { ctxA with traceMeta := [5, 0] }
+
+/-- ✗ the full statement is FALSE for the code as it is (known finding c04.seed.context-collision.trace-meta):
+    `TraceInfo::to_elements` zero-pads the metadata chunks and does not encode the metadata length, so trailing
+    zero bytes of the metadata do not reach the seed -/
+theorem ctx_injective_fails : ¬ CtxInjective := by
+  intro h
+  have hA : ctxA.valid := by unfold Ctx.valid; decide
+  have hB : ctxB.valid := by unfold Ctx.valid; decide
+  have := h ctxA ctxB hA hB rfl (by decide)
+  exact absurd this (by decide)
+
+/-- ◐ what holds: the seed elements determine the context among contexts whose metadata have the same LENGTH
+    (in particular for all contexts without metadata, which is every context the harness can produce); the guard
+    excludes exactly the defect above -/
+theorem ctx_injective_partial (c c' : Ctx) (hv : c.valid) (hv' : c'.valid) (hE : c.elemBytes = c'.elemBytes)
+    (hL : c.traceMeta.length = c'.traceMeta.length) (h : ctxElems c = ctxElems c') : c = c' := by
+  obtain ⟨h1, h2, h3, h4, h5, h6, h7, h8, h9, h10, h11⟩ := hv
+  obtain ⟨h1', h2', h3', h4', h5', h6', h7', h8', h9', h10', h11'⟩ := hv'
+  unfold ctxElems traceInfoElems at h
+  simp only [List.append_assoc, List.cons_append, List.nil_append, List.cons.injEq] at h
+  obtain ⟨hbuf, hlen, hrest⟩ := h
+  have hn : 0 < c.elemBytes - 1 := by omega
+  have hcl : ((chunksOf (c.elemBytes - 1) c.traceMeta.length c.traceMeta).map Model.Coin.leVal).length
+      = ((chunksOf (c'.elemBytes - 1) c'.traceMeta.length c'.traceMeta).map Model.Coin.leVal).length := by
+    rw [List.length_map, List.length_map, ← hE, length_chunksOf _ hn _ _ (Nat.le_refl _),
+      length_chunksOf _ hn _ _ (Nat.le_refl _), hL]
+  obtain ⟨hch, htail⟩ := List.append_inj hrest hcl
+  simp only [List.cons.injEq, and_true] at htail
+  obtain ⟨hlo, hhi, hopt, hg, hb, hq⟩ := htail
+  -- metadata
+  have hmeta : c.traceMeta = c'.traceMeta := by
+    rw [← hE, ← hL] at hch
+    exact chunks_inj _ hn _ _ _ hL (Nat.le_refl _) h6 h6' hch
+  -- trace length
+  have htl : c.traceLen = c'.traceLen := by
+    rw [Nat.mod_eq_of_lt h5, Nat.mod_eq_of_lt h5'] at hlen; exact hlen
+  -- modulus
+  have hmod : c.modulus = c'.modulus := by
+    rw [← hE] at hlo hhi
+    have e1 := Nat.div_add_mod c.modulus (2 ^ (8 * (c.elemBytes / 2)))
+    have e2 := Nat.div_add_mod c'.modulus (2 ^ (8 * (c.elemBytes / 2)))
+    rw [← e1, ← e2, hlo, hhi]
+  -- widths
+  have hw : c.mainWidth = c'.mainWidth ∧ c.auxWidth = c'.auxWidth ∧ c.auxRands = c'.auxRands := by
+    by_cases ha : c.auxWidth > 0 <;> by_cases ha' : c'.auxWidth > 0 <;> simp only [ha, ha', if_true, if_false] at hbuf
+    · omega
+    · omega
+    · omega
+    · have := h4 (by omega); have := h4' (by omega); omega
+  -- options
+  have hopts : c.ext = c'.ext ∧ c.folding = c'.folding ∧ c.remainder = c'.remainder := by omega
+  obtain ⟨hw1, hw2, hw3⟩ := hw
+  obtain ⟨ho1, ho2, ho3⟩ := hopts
+  cases c; cases c'
+  simp only [Ctx.mk.injEq]
+  exact ⟨hw1, hw2, hw3, htl, hmeta, hmod, hE, hq, hb, hg, ho1, ho2, ho3⟩
+
+example : ctxA.valid ∧ ctxA.traceMeta.length = ({ ctxA with traceMeta := [6] } : Ctx).traceMeta.length := by
+  refine ⟨by unfold Ctx.valid; decide, rfl⟩
 
 -- =================================================================== examples
 /-- a 2-segment AIR (auxiliary segment with Lagrange kernel) with 3 FRI layers, quadratic extension -/
